@@ -552,7 +552,7 @@ func checkPLHandler(c *fw.Ctx, fn *ssa.Function) {
 				ok = true
 			}
 		}
-		c.Check(ok, rule, "CheckPowerLevelEvent dispatches to the checkPowerLevelEvent column", c.P.Pos(w.Pos()), "", "wrapper does not call the table field")
+		c.Expect(ok, rule, "CheckPowerLevelEvent dispatches to the checkPowerLevelEvent column", c.P.Pos(w.Pos()), "", "no call of the table field was recognised in the wrapper")
 	}
 }
 
